@@ -161,7 +161,7 @@ impl Prop for C19 {
     }
     fn prepare(&mut self, tier: Tier) -> Result<(), String> {
         self.tier = tier;
-        self.coords = vec![0, 1, 2, 3, 4, 5, 65535];
+        self.coords = if tier == Tier::Quick { vec![0, 1, 2, 3, 4, 5, 65535] } else { vec![0, 1, 2, 3, 4, 5, 6, 32768, 65535] };
         self.dims = vec![];
         let m = if tier == Tier::Quick { 3 } else { 4 };
         for w in 1..=m {
@@ -180,7 +180,7 @@ impl Prop for C19 {
         json!({"idx": idx, "window": [c.win_w, c.win_h], "rect": {"left": c.l, "top": c.t, "right": c.r, "bottom": c.b}, "image": [c.img_w, c.img_h], "bpp": c.bpp, "data": DATA_KINDS[c.kind]})
     }
     fn rule(&self) -> String {
-        "cases = (window WxH in 1..3 squared (1..4 in thorough), rectangle left/top/right/bottom each in {0..5, 65535} (inside, outside, inverted), image width/height each in 0..5, depth in {16,32,15}, data in {raw exact, raw one byte short, raw 4 bytes long, valid RLE, garbage, RLE truncated}) — the full product. Executed on the unmodified fast_bitmap_transfer under a red-zone allocator. Oracle: no panic; canary zones of every heap block intact; when the call succeeds for a rectangle inside the window with a known image, the buffer equals the reference blit (rows top..bottom, columns left..right from image rows 0.., columns 0..) and every other cell keeps its sentinel; when the call fails the buffer may hold a prefix of the rows but never a foreign value. Non-trivial: the call reached the copy loop (decompression succeeded).".into()
+        "cases = (window WxH in 1..3 squared (1..4 in thorough), rectangle left/top/right/bottom each in {0..5, 65535} ({0..6, 32768, 65535} in thorough) (inside, outside, inverted), image width/height each in 0..5, depth in {16,32,15}, data in {raw exact, raw one byte short, raw 4 bytes long, valid RLE, garbage, RLE truncated}) — the full product. Executed on the unmodified fast_bitmap_transfer under a red-zone allocator. Oracle: no panic; canary zones of every heap block intact; when the call succeeds for a rectangle inside the window with a known image, the buffer equals the reference blit (rows top..bottom, columns left..right from image rows 0.., columns 0..) and every other cell keeps its sentinel; when the call fails the buffer may hold a prefix of the rows but never a foreign value. Non-trivial: the call reached the copy loop (decompression succeeded).".into()
     }
     fn assumptions(&self) -> Vec<String> {
         vec![
